@@ -142,8 +142,8 @@ func init() {
 				}
 				items = append(items, specItems("C01", sp, bound, allStrats, tags, c01Oracle)...)
 			}
-			if tier == "all-probe" {
-				return allItems("C01", c01Oracle)
+			if tier == "thorough" {
+				items = append(allItems("C01", c01Oracle, nil), items...)
 			}
 			return items
 		},
